@@ -948,6 +948,112 @@ pub fn arb_conv(max_count: u16) -> impl Strategy<Value = ConvCase> {
     })
 }
 
+// ---------------------------------------------------------------------------
+// the daemon's TABLE_DUMP_V2 writer (daemon/src/mrt.rs dump_table) over a RIB built by a
+// TableManager history: peer index table and RIB records read back with the independent
+// reader and compared with the RIB's ranked paths
+// ---------------------------------------------------------------------------
+
+pub const DAEMON_DUMP_RULE: &str = "daemon-table-dump: a TableManager history (inserts / removes / peer loss / stale marking / import-policy soft reset / next-hop reports over 3 peers, IPv4 and IPv6 prefixes, 2 path ids) followed by the daemon's dump_table into a scratch file; read back with the independent MRT reader: first record = peer index table (collector id, every peer once, identifier / address / AS of a source in the RIB); then one RIB record per prefix that has exportable paths, sequence numbers 0.. per subtype, entries in the RIB's ranking order; each entry's peer index names the peer its path came from, and its prefix, next hop and attributes re-parse (RFC 6396 abbreviated MP_REACH re-expanded) to the path's. non-trivial := some prefix has paths from two peers";
+
+#[derive(Clone, Debug, Serialize, Deserialize)]
+pub struct DaemonDumpCase {
+    pub ops: Vec<crate::props::tmrig::TmOp>,
+}
+
+static DUMP_SEQ: std::sync::atomic::AtomicU64 = std::sync::atomic::AtomicU64::new(0);
+
+pub fn check_daemon_dump(c: &DaemonDumpCase) -> CheckResult {
+    use crate::props::tmrig::Rig;
+    let rig = Rig::new(false);
+    for op in &c.ops {
+        rig.apply(op);
+    }
+    let router_id = Ipv4Addr::new(1, 0, 0, 1);
+    let path = std::env::temp_dir().join(format!("rbverif-dump-{}-{}.mrt", std::process::id(), DUMP_SEQ.fetch_add(1, std::sync::atomic::Ordering::Relaxed)));
+    let rt = tokio::runtime::Builder::new_current_thread().enable_all().build().map_err(|e| Failure::new("harness", e.to_string()))?;
+    let tm = rig.tm.clone();
+    let bytes = rt.block_on(crate::mrt::verif::dump(router_id, &tm, &path));
+    let _ = std::fs::remove_file(&path);
+    let bytes = bytes.map_err(|e| Failure::new("mrt-framing", format!("dump_table failed: {e}")).with("msg", "daemon-dump"))?;
+    let recs = mon::read_mrt(&bytes).map_err(|e| Failure::new("mrt-framing", format!("table dump: {e}")).with("msg", "daemon-dump"))?;
+    let truth: Vec<(bool, Vec<table::NlriChange>)> = vec![(false, tm.collect_loc_rib_paths(Family::IPV4)), (true, tm.collect_loc_rib_paths(Family::IPV6))];
+    let Some((_, MrtRecord::PeerIndex { collector, view: _, peers })) = recs.first() else {
+        return Err(Failure::new("mrt-framing", format!("first record is {:?}", recs.first())).with("msg", "daemon-dump"));
+    };
+    if *collector != router_id {
+        return Err(Failure::new("mrt-header", format!("collector identifier {collector}, the speaker's is {router_id}")).with("msg", "peer-index"));
+    }
+    let mut seen = std::collections::BTreeSet::new();
+    for (_, addr, _) in peers {
+        if !seen.insert(*addr) {
+            return Err(Failure::new("mrt-header", format!("peer {addr} is listed twice in the peer index table {peers:?}")).with("msg", "peer-index"));
+        }
+    }
+    let mut info = CaseInfo::trivial();
+    let mut it = recs[1..].iter();
+    for (v6, changes) in &truth {
+        let mut seq = 0u32;
+        for ch in changes {
+            if ch.current_paths.is_empty() {
+                continue;
+            }
+            let Some((_, MrtRecord::Rib { v6: gv6, seq: gseq, prefix_len, prefix: pb, entries })) = it.next() else {
+                return Err(Failure::new("mrt-framing", format!("no RIB record for {:?} (the dump ends early or holds another record type)", ch.net)).with("msg", "daemon-dump"));
+            };
+            if gv6 != v6 || *gseq != seq {
+                return Err(Failure::new("mrt-header", format!("RIB record for {:?}: subtype/sequence ({gv6},{gseq}), expected ({v6},{seq})", ch.net)).with("msg", "rib"));
+            }
+            seq += 1;
+            if entries.len() != ch.current_paths.len() {
+                return Err(Failure::new("mrt-header", format!("RIB record for {:?} holds {} entries, the RIB has {} exportable paths", ch.net, entries.len(), ch.current_paths.len())).with("msg", "rib"));
+            }
+            let npeers: std::collections::BTreeSet<IpAddr> = ch.current_paths.iter().map(|p| p.source.remote_addr).collect();
+            if npeers.len() >= 2 {
+                info.nontrivial = true;
+                info.classes.push("prefix-with-paths-of-two-peers");
+            }
+            for (k, (e, p)) in entries.iter().zip(ch.current_paths.iter()).enumerate() {
+                let Some(peer) = peers.get(e.peer_index as usize) else {
+                    return Err(Failure::new("mrt-header", format!("RIB entry {k} of {:?}: peer index {} is outside the peer index table ({} peers)", ch.net, e.peer_index, peers.len())).with("msg", "rib"));
+                };
+                let want = (Ipv4Addr::from(p.source.router_id), p.source.remote_addr, p.source.remote_asn);
+                if *peer != want {
+                    return Err(Failure::new("mrt-peer", format!("RIB entry {k} of {:?}: peer index {} names {peer:?}, the path was learned from {want:?}", ch.net, e.peer_index)).with("msg", "rib"));
+                }
+                let (gnh, gattrs, nlris) = reparse_entry(*v6, *prefix_len, pb, &e.attrs).map_err(|m| Failure::new("mrt-embedded", format!("RIB entry {k} of {:?}: {m}", ch.net)).with("why", "unparsable"))?;
+                if nlris != vec![ch.net.clone()] {
+                    return Err(Failure::new("mrt-embedded", format!("RIB record prefix reads back as {nlris:?}, the RIB's is {:?}", ch.net)).with("why", "prefix"));
+                }
+                if p.nexthop.is_some() && gnh != p.nexthop {
+                    return Err(Failure::new("mrt-embedded", format!("RIB entry {k} of {:?}: next hop reads back as {gnh:?}, the path's is {:?}", ch.net, p.nexthop)).with("why", "nexthop"));
+                }
+                if gattrs != attr_view(&p.attr) {
+                    return Err(Failure::new("mrt-embedded", format!("RIB entry {k} of {:?}: attributes read back as {gattrs:?}, the path's are {:?}", ch.net, attr_view(&p.attr))).with("why", "attrs"));
+                }
+            }
+            info.classes.push(if *v6 { "daemon-rib-ipv6" } else { "daemon-rib-ipv4" });
+        }
+    }
+    if let Some(extra) = it.next() {
+        return Err(Failure::new("mrt-framing", format!("the dump holds a record the RIB does not account for: {extra:?}")).with("msg", "daemon-dump"));
+    }
+    Ok(info)
+}
+
+fn arb_daemon_dump() -> impl Strategy<Value = DaemonDumpCase> {
+    use crate::props::tmrig::TmOp;
+    let op = prop_oneof![
+        12 => (0u8..3, 0u8..8, 0u8..2, 0u8..6, 0u8..3).prop_map(|(peer, prefix, path_id, attrs, nh)| TmOp::Insert { peer, prefix, path_id, attrs, nh }),
+        3 => (0u8..3, 0u8..8, 0u8..2).prop_map(|(peer, prefix, path_id)| TmOp::Remove { peer, prefix, path_id }),
+        1 => (0u8..3).prop_map(|peer| TmOp::DropPeer { peer }),
+        1 => (0u8..3).prop_map(|peer| TmOp::MarkStale { peer }),
+        1 => (0u8..3, 0u8..3).prop_map(|(peer, policy)| TmOp::SoftResetIn { peer, policy }),
+        1 => (0u8..3, any::<bool>()).prop_map(|(nh, reachable)| TmOp::NhReach { nh, reachable }),
+    ];
+    proptest::collection::vec(op, 1..24).prop_map(|ops| DaemonDumpCase { ops })
+}
+
 pub fn run(r: &Run) {
     r.set_rule(RULE);
     r.assume("monitored sessions have local and remote addresses of one address family (they are the two ends of one TCP connection)");
@@ -957,6 +1063,8 @@ pub fn run(r: &Run) {
     r.prop("mrt-stream", r.tier.pick(15_000, 500_000), || arb_mrt(2500), check_mrt);
     r.prop("table-dump", r.tier.pick(15_000, 400_000), arb_dump, check_dump);
     r.prop("converters", r.tier.pick(10_000, 300_000), || arb_conv(r.tier.pick(600, 2500)), check_conv);
+    r.assume(DAEMON_DUMP_RULE);
+    r.prop("daemon-table-dump", r.tier.pick(6_000, 200_000), arb_daemon_dump, check_daemon_dump);
 }
 
 pub fn replay(sub: &str, case: &Value) -> Result<CheckResult, String> {
@@ -965,6 +1073,7 @@ pub fn replay(sub: &str, case: &Value) -> Result<CheckResult, String> {
         "mrt-stream" => Ok(check_mrt(&decode_case(case)?)),
         "table-dump" => Ok(check_dump(&decode_case(case)?)),
         "converters" => Ok(check_conv(&decode_case(case)?)),
+        "daemon-table-dump" => Ok(check_daemon_dump(&decode_case(case)?)),
         _ => Err(format!("unknown sub-check {sub}")),
     }
 }
